@@ -52,6 +52,16 @@ def register(m):
     m("C14", "b2-hook-rhs-swapped", VE, "            result = rhs._eval_vector_cross(lhs, rhs)", "            result = rhs._eval_vector_cross(rhs, lhs)", "R4")
     m("C14", "b2-hook-doit-order-swapped", VE, "        lhs, rhs = lhs.doit(), rhs.doit()\n\n        if isinstance(lhs, VectorExpr):\n            result = lhs._eval_vector_cross(lhs, rhs)",
       "        lhs, rhs = rhs.doit(), lhs.doit()\n\n        if isinstance(lhs, VectorExpr):\n            result = lhs._eval_vector_cross(lhs, rhs)", ("R4", "R2", "R1"))
+    # C14 R5 termination (three genuine defects repaired in b778f65, 407cdd1, 5bb005f)
+    m("C14", "b2-derivative-not-atomic-regression", VE, "    return isinstance(value, (VectorSymbol, AppliedVectorFunction, VectorDerivative))", "    return isinstance(value, (VectorSymbol, AppliedVectorFunction))", "R5")
+    m("C14", "b2-mixed-derivative-via-dot-regression", VE,
+      "        derived_a = VectorMixedProduct(a.diff(symbol), b, c)\n        derived_b = VectorMixedProduct(a, b.diff(symbol), c)\n        derived_c = VectorMixedProduct(a, b, c.diff(symbol))\n\n        return derived_a + derived_b + derived_c  # type: ignore[no-any-return]",
+      "        return VectorDot(a, VectorCross(b, c)).diff(symbol)", "R5")
+    m("C14", "b2-second-derivative-self-diff-regression", VE, "        return super()._eval_derivative(symbol)", "        return super().diff(symbol)", "R5")
+    m("C14", "b2-norm-derivative-unguarded-doit", VE, "        if not isinstance(done, VectorNorm):\n            return done.diff(symbol)", "        if done != self:\n            return done.diff(symbol)", "R5",
+      note="doit() can return an equal-class VectorNorm that differs structurally; only the class test guarantees progress")
+    m("C14", "b2-cross-derivative-renamed-ok", VE, "        lhs, rhs = self.args\n\n        derived_lhs = VectorCross(lhs.diff(symbol), rhs)\n        derived_rhs = VectorCross(lhs, rhs.diff(symbol))",
+      "        first, second = self.args\n\n        derived_lhs = VectorCross(first.diff(symbol), second)\n        derived_rhs = VectorCross(first, second.diff(symbol))", "SILENT")
     # C15 X1 grid / X6
     m("C15", "b2-mod-two-pi-one-site", SC, "        rho: sqrt(x**2 + y**2),\n        phi: atan2(y, x),", "        rho: sqrt(x**2 + y**2),\n        phi: Mod(atan2(y, x), 2 * pi),", "X6",
       extra=[(SC, "from sympy import Expr, atan2, cos, sin, sqrt, Symbol as SymSymbol", "from sympy import Expr, Mod, atan2, cos, pi, sin, sqrt, Symbol as SymSymbol", 1)])
